@@ -579,10 +579,17 @@ pub fn explore(
         violations: vec![], samples: vec![], hint_kinds: Default::default(), lies: Default::default(),
         oracle_checked: 0, error: None,
     };
-    let runner = match SierraCasmRunner::new(program.clone(), None, Default::default(), None) {
-        Ok(r) => r,
-        Err(e) => {
+    let built = std::panic::catch_unwind(std::panic::AssertUnwindSafe(|| {
+        SierraCasmRunner::new(program.clone(), None, Default::default(), None)
+    }));
+    let runner = match built {
+        Ok(Ok(r)) => r,
+        Ok(Err(e)) => {
             rep.error = Some(format!("runner: {e}"));
+            return rep;
+        }
+        Err(_) => {
+            rep.error = Some(format!("runner: COMPILER PANIC in sierra-to-casm @ {}", vcommon::last_panic_location()));
             return rep;
         }
     };
